@@ -503,6 +503,8 @@ type pwalker struct {
 	fn       *ssa.Function
 	onInstr  func(st *pstate, ins ssa.Instruction)
 	onReturn func(st *pstate, r *ssa.Return)
+	onCall   func(st *pstate, call *ssa.Call) []*pstate
+	initAux  string
 	limit    int
 	n        int
 	overflow bool
@@ -558,7 +560,7 @@ func (w *pwalker) run() {
 	if len(w.fn.Blocks) == 0 {
 		return
 	}
-	w.visit(w.fn.Blocks[0], nil, &pstate{facts: map[ssa.Value]tri{}})
+	w.visit(w.fn.Blocks[0], nil, &pstate{facts: map[ssa.Value]tri{}, aux: w.initAux})
 }
 
 // nilness: triYes = known non-nil, triNo = known nil.
@@ -714,7 +716,13 @@ func (w *pwalker) visit(b *ssa.BasicBlock, pred *ssa.BasicBlock, st *pstate) {
 		return
 	}
 	st.path = append(st.path, b.Index)
-	for _, ins := range b.Instrs {
+	w.exec(b, 0, st)
+}
+
+// exec runs the instructions of b from index `from` in state st.
+func (w *pwalker) exec(b *ssa.BasicBlock, from int, st *pstate) {
+	for i := from; i < len(b.Instrs); i++ {
+		ins := b.Instrs[i]
 		if _, isPhi := ins.(*ssa.Phi); isPhi {
 			continue
 		}
@@ -754,6 +762,11 @@ func (w *pwalker) visit(b *ssa.BasicBlock, pred *ssa.BasicBlock, st *pstate) {
 			delete(st.alias, v)
 		}
 		switch x := ins.(type) {
+		case *ssa.Extract:
+			// an inlined callee's outcome is recorded on the tuple; hand it to the error component
+			if t, ok := st.facts[x.Tuple]; ok && ir.IsErrorType(x.Type()) {
+				st.facts[x] = t
+			}
 		case *ssa.Store:
 			if a := w.simpleCell(x.Addr); a != nil {
 				if st.cells == nil {
@@ -776,10 +789,24 @@ func (w *pwalker) visit(b *ssa.BasicBlock, pred *ssa.BasicBlock, st *pstate) {
 		if w.onInstr != nil {
 			w.onInstr(st, ins)
 		}
-	}
-	// block without terminator handled above (select/range `Next` etc. end in If/Jump)
-	for _, s := range b.Succs {
-		w.visit(s, b, st.clone())
+		// a hook may replace the state after a call by several successor
+		// states (the outcomes of an inlined callee)
+		if call, ok := ins.(*ssa.Call); ok && w.onCall != nil {
+			if outs := w.onCall(st, call); outs != nil {
+				for _, o := range outs {
+					if w.overflow {
+						return
+					}
+					w.n++
+					if w.n > w.limit {
+						w.overflow = true
+						return
+					}
+					w.exec(b, i+1, o)
+				}
+				return
+			}
+		}
 	}
 }
 
@@ -922,4 +949,351 @@ func descValue(v ssa.Value) string {
 		return callName(call) + "(" + strings.Join(as, ", ") + ")"
 	}
 	return ir.Sym(v)
+}
+
+// ---------------------------------------------------------------------------
+// frames: following values into and out of helper functions
+//
+// A frame is one activation of a repository function in the (bounded) call
+// tree below a Load/Store method. Values are resolved upwards (a parameter of
+// a helper denotes the argument at the call that created the frame) and
+// downwards (a call of a helper with a single return denotes the returned
+// expression in the helper's frame). Frames are memoised per call site so
+// that (value, frame) pairs can be compared for identity.
+
+const maxHelperDepth = 2
+
+type frame struct {
+	P     *ir.Program
+	fn    *ssa.Function
+	up    *frame
+	call  ssa.CallInstruction // the call in up.fn that created this frame
+	depth int
+	kids  map[ssa.CallInstruction]*frame
+	recv  *recvInfo
+}
+
+func rootFrame(P *ir.Program, fn *ssa.Function) *frame {
+	return &frame{P: P, fn: fn, kids: map[ssa.CallInstruction]*frame{}, recv: newRecvInfo(fn)}
+}
+
+func (f *frame) root() *frame {
+	for f.up != nil {
+		f = f.up
+	}
+	return f
+}
+
+// child returns the frame of the repository function statically called by
+// ci, or nil (dynamic/external callee, depth bound reached, recursion).
+func (f *frame) child(ci ssa.CallInstruction) *frame {
+	if k, ok := f.kids[ci]; ok {
+		return k
+	}
+	var k *frame
+	h := ci.Common().StaticCallee()
+	if h != nil && h.Blocks != nil && isOwn(f.P, h) && f.depth < maxHelperDepth && len(ci.Common().Args) == len(h.Params) {
+		rec := false
+		for a := f; a != nil; a = a.up {
+			if a.fn == h {
+				rec = true
+			}
+		}
+		if !rec {
+			k = &frame{P: f.P, fn: h, up: f, call: ci, depth: f.depth + 1, kids: map[ssa.CallInstruction]*frame{}, recv: newRecvInfo(h)}
+		}
+	}
+	f.kids[ci] = k
+	return k
+}
+
+func (f *frame) String() string {
+	if f.up == nil {
+		return ir.FuncName(f.fn)
+	}
+	return f.up.String() + "→" + ir.FuncName(f.fn)
+}
+
+// fval is a value in a frame.
+type fval struct {
+	v  ssa.Value
+	fr *frame
+}
+
+// soleReturn returns the only return instruction of fn (ignoring the
+// synthetic recover block), or nil.
+func soleReturn(fn *ssa.Function) *ssa.Return {
+	var out *ssa.Return
+	for _, b := range fn.Blocks {
+		if b == fn.Recover || len(b.Instrs) == 0 {
+			continue
+		}
+		if r, ok := b.Instrs[len(b.Instrs)-1].(*ssa.Return); ok {
+			if out != nil {
+				return nil
+			}
+			out = r
+		}
+	}
+	return out
+}
+
+// soleNonZeroResult returns the only non-zero-constant value returned in
+// position idx by fn, or nil.
+func soleNonZeroResult(fn *ssa.Function, idx int) ssa.Value {
+	var out ssa.Value
+	for _, b := range fn.Blocks {
+		if b == fn.Recover || len(b.Instrs) == 0 {
+			continue
+		}
+		r, ok := b.Instrs[len(b.Instrs)-1].(*ssa.Return)
+		if !ok {
+			continue
+		}
+		if idx >= len(r.Results) {
+			return nil
+		}
+		v := r.Results[idx]
+		if c, isC := v.(*ssa.Const); isC && (c.Value == nil || c.IsNil() || isZeroConst(c)) {
+			continue
+		}
+		if out != nil && out != v {
+			return nil
+		}
+		out = v
+	}
+	return out
+}
+
+func isZeroConst(c *ssa.Const) bool {
+	if c.Value == nil {
+		return true
+	}
+	switch c.Value.Kind() {
+	case constant.String:
+		return constant.StringVal(c.Value) == ""
+	case constant.Int, constant.Float:
+		return constant.Sign(c.Value) == 0
+	case constant.Bool:
+		return !constant.BoolVal(c.Value)
+	}
+	return false
+}
+
+// unfollowedHelper reports whether v is a call of a repository function that
+// expand did not follow (nesting deeper than maxHelperDepth, several returns,
+// recursion): the rules then answer "undecided", not "violation".
+func unfollowedHelper(x fval) bool {
+	var call *ssa.Call
+	switch y := x.v.(type) {
+	case *ssa.Call:
+		call = y
+	case *ssa.Extract:
+		call, _ = y.Tuple.(*ssa.Call)
+	}
+	if call == nil {
+		return false
+	}
+	h := call.Call.StaticCallee()
+	return h != nil && h.Blocks != nil && isOwn(x.fr.P, h)
+}
+
+// expand resolves v in frame fr as far as helper boundaries allow.
+func expand(v ssa.Value, fr *frame) fval {
+	for i := 0; i < 16 && v != nil; i++ {
+		v = ir.Strip(ir.ResolveCell(v))
+		switch x := v.(type) {
+		case *ssa.Parameter:
+			if fr.up != nil {
+				idx := -1
+				for j, p := range fr.fn.Params {
+					if p == x {
+						idx = j
+					}
+				}
+				if idx >= 0 {
+					v, fr = fr.call.Common().Args[idx], fr.up
+					continue
+				}
+			}
+		case *ssa.Call:
+			if k := fr.child(x); k != nil {
+				if r := soleReturn(k.fn); r != nil && len(r.Results) == 1 {
+					v, fr = r.Results[0], k
+					continue
+				}
+			}
+		case *ssa.Extract:
+			if call, ok := x.Tuple.(*ssa.Call); ok {
+				if k := fr.child(call); k != nil {
+					if r := soleReturn(k.fn); r != nil && x.Index < len(r.Results) {
+						v, fr = r.Results[x.Index], k
+						continue
+					}
+					// several returns, all but one carrying the zero value in this
+					// position (the `return "", err` idiom): the component denotes
+					// the one non-zero expression whenever it is meaningful
+					if rv := soleNonZeroResult(k.fn, x.Index); rv != nil {
+						v, fr = rv, k
+						continue
+					}
+				}
+			}
+		}
+		break
+	}
+	return fval{v, fr}
+}
+
+// isRootRecv: the receiver of fr.fn denotes the receiver of the root method.
+func isRootRecv(fr *frame) bool {
+	for fr.up != nil {
+		if fr.fn.Signature.Recv() == nil || fr.recv == nil {
+			return false
+		}
+		arg := ir.Strip(ir.ResolveCell(fr.call.Common().Args[0]))
+		up := fr.up
+		if up.recv == nil {
+			return false
+		}
+		ok := up.recv.isRecvValue(arg) || up.recv.isBase(arg)
+		if u, isU := arg.(*ssa.UnOp); isU && u.Op == token.MUL && u.X == ssa.Value(up.recv.param) {
+			ok = true // *p of a pointer receiver
+		}
+		if !ok {
+			return false
+		}
+		fr = up
+	}
+	return true
+}
+
+// rootRecvField: v (in fr) is the content of field `name` of the root
+// method's receiver (possibly read inside a helper method called on it).
+func rootRecvField(v ssa.Value, fr *frame) (string, bool) {
+	x := expand(v, fr)
+	if x.fr.recv == nil {
+		return "", false
+	}
+	name, ok := x.fr.recv.fieldOf(x.v)
+	if !ok || !isRootRecv(x.fr) || x.fr.recv.fieldWritten(name) {
+		return "", false
+	}
+	return name, true
+}
+
+// rootRecvFieldAddr: v is the address of a field of the root receiver.
+func rootRecvFieldAddr(v ssa.Value, fr *frame) (string, bool) {
+	x := expand(v, fr)
+	if x.fr.recv == nil {
+		return "", false
+	}
+	name, ok := x.fr.recv.fieldAddrOf(x.v)
+	if !ok || !isRootRecv(x.fr) || x.fr.recv.fieldWritten(name) {
+		return "", false
+	}
+	return name, true
+}
+
+// isRootParam: v denotes parameter #idx of the root method.
+func isRootParam(v ssa.Value, fr *frame, idx int) bool {
+	x := expand(v, fr)
+	return x.fr.up == nil && idx < len(x.fr.fn.Params) && x.v == ssa.Value(x.fr.fn.Params[idx])
+}
+
+// stringLeaves flattens a string expression into the operands that are
+// concatenated: a + b, and fmt.Sprintf with a format made of %s/%v verbs and
+// literal text (the literal pieces become synthetic constants).
+func stringLeaves(v ssa.Value, fr *frame) []fval {
+	x := expand(v, fr)
+	switch y := x.v.(type) {
+	case *ssa.BinOp:
+		if bt, ok := y.Type().Underlying().(*types.Basic); ok && y.Op == token.ADD && bt.Info()&types.IsString != 0 {
+			return append(stringLeaves(y.X, x.fr), stringLeaves(y.Y, x.fr)...)
+		}
+	case *ssa.Call:
+		if staticID(y) == "fmt.Sprintf" && len(y.Call.Args) == 2 {
+			format, ok := constString(y.Call.Args[0])
+			args := variadicElems(y.Call.Args[1])
+			if ok && args != nil {
+				if out, ok := sprintfLeaves(format, args, x.fr); ok {
+					return out
+				}
+			}
+		}
+	}
+	return []fval{x}
+}
+
+func sprintfLeaves(format string, args []ssa.Value, fr *frame) ([]fval, bool) {
+	var out []fval
+	lit := ""
+	flush := func() {
+		if lit != "" {
+			out = append(out, fval{ssa.NewConst(constant.MakeString(lit), types.Typ[types.String]), fr})
+			lit = ""
+		}
+	}
+	ai := 0
+	for i := 0; i < len(format); i++ {
+		ch := format[i]
+		if ch != '%' {
+			lit += string(ch)
+			continue
+		}
+		if i+1 >= len(format) {
+			return nil, false
+		}
+		i++
+		switch format[i] {
+		case '%':
+			lit += "%"
+		case 's', 'v':
+			if ai >= len(args) {
+				return nil, false
+			}
+			a := ir.Strip(args[ai])
+			bt, ok := a.Type().Underlying().(*types.Basic)
+			if !ok || bt.Info()&types.IsString == 0 {
+				return nil, false // only strings print verbatim
+			}
+			flush()
+			out = append(out, stringLeaves(a, fr)...)
+			ai++
+		default:
+			return nil, false
+		}
+	}
+	flush()
+	if ai != len(args) {
+		return nil, false
+	}
+	return out, true
+}
+
+// frameCalls enumerates the calls of fr.fn and, recursively, of the helper
+// frames below it.
+func frameCalls(fr *frame, visit func(call *ssa.Call, fr *frame)) {
+	for _, b := range fr.fn.Blocks {
+		if b == fr.fn.Recover {
+			continue
+		}
+		for _, ins := range b.Instrs {
+			call, ok := ins.(*ssa.Call)
+			if !ok {
+				continue
+			}
+			visit(call, fr)
+			if k := fr.child(call); k != nil {
+				frameCalls(k, visit)
+			}
+		}
+	}
+}
+
+func descFval(x fval) string {
+	if x.fr != nil && x.fr.up != nil {
+		return descValue(x.v) + " in " + ir.FuncName(x.fr.fn)
+	}
+	return descValue(x.v)
 }
